@@ -548,7 +548,7 @@ MEMBERS = [
     ("complex", complex, ("scalar", complex)),
     ("Float[np.ndarray, 'a']", NESTED, ("nested", "Float", ("cls", np.ndarray), "a")),
 ]
-U_DIMS = ["", "a", "*c", "...", "3", "#a", "a b", "... a"]
+U_DIMS = ["", "a", "*c", "...", "3", "#a", "a b", "... a", "#*c", "*_"]  # (the last two: multi-axis forms that do not START with "*" / are anonymous)
 # nested members that differ ONLY in their inner category (same outer category, array type and shape string once wrapped):
 # a union must keep them apart (typing.Union merges members that compare equal)
 N16 = ("Float16[np.ndarray, 'a']", jaxtyping.Float16[np.ndarray, "a"], ("nested", "Float16", ("cls", np.ndarray), "a"))
